@@ -8,7 +8,7 @@
 -/
 import PyTealV.Proofs.C02GenMach
 namespace PyTealV.Proofs.C02Gen
-open PyTealV PyTealV.Avm PyTealV.Src PyTealV.Comp
+open PyTealV PyTealV.Avm PyTealV.Src PyTealV.Comp PyTealV.Models.FragmentR
 open PyTealV.Proofs.C02Spill (getSlot_setSlot storeAll getSlot_storeAll)
 
 /-! ### `hasReturn` -/
@@ -207,5 +207,49 @@ theorem getSlot_bindAll_reverse (l : List (Nat × Val)) (sc sc' : List (Nat × V
   have hnd' : (l.reverse.map (·.1)).Nodup := by
     rw [List.map_reverse]; exact nodup_reverse_of hnd
   rw [getSlot_bindAll l sc x hnd, getSlot_bindAll l.reverse sc' x hnd', lookup_reverse l x hnd, hsc x]
+
+/-! ### valid references (by-reference discipline, stage 3)
+
+  The by-reference parameter cells of the routines that have an activation on the call stack hold
+  slot numbers `< 256` that are no parameter slot of any routine. -/
+
+/-- a slot number that may be dereferenced -/
+def okAddr (p : Prog) (s : Nat) : Prop := s < 256 ∧ s ∉ allParamSlots p
+
+def validAt (p : Prog) (w : World) (v : Nat) : Prop := ∃ s, getSlot w.scratch v = .u s ∧ okAddr p s
+
+/-- the by-reference parameter cells of the routines `A` hold valid references -/
+def VSet (p : Prog) (A : List Nat) (w : World) : Prop :=
+  ∀ f, f ∈ A → ∀ sd, findSub p f = some sd → ∀ v, v ∈ refSlots sd → validAt p w v
+
+theorem refSlots_params {sd : SubDef} {v : Nat} (h : v ∈ refSlots sd) : v ∈ sd.params.map (·.2) := by
+  unfold refSlots at h
+  obtain ⟨kv, hkv, rfl⟩ := List.mem_map.mp h
+  exact List.mem_map.mpr ⟨kv, (List.mem_filter.mp hkv).1, rfl⟩
+
+theorem mem_allRefSlots {p : Prog} {f : Nat} {sd : SubDef} {v : Nat} (hsd : findSub p f = some sd)
+    (h : v ∈ refSlots sd) : v ∈ allRefSlots p :=
+  List.mem_flatMap.mpr ⟨sd, List.mem_of_find?_eq_some hsd, h⟩
+
+theorem allRefSlots_params {p : Prog} {v : Nat} (h : v ∈ allRefSlots p) : v ∈ allParamSlots p := by
+  obtain ⟨sd, hsd, hv⟩ := List.mem_flatMap.mp h
+  exact List.mem_flatMap.mpr ⟨sd, hsd, refSlots_params hv⟩
+
+/-- `VSet` only looks at the by-reference parameter slots -/
+theorem VSet.congr {p : Prog} {A : List Nat} {w w' : World}
+    (hs : ∀ s, s ∈ allRefSlots p → getSlot w'.scratch s = getSlot w.scratch s) (h : VSet p A w) : VSet p A w' := by
+  intro f hf sd hsd v hv
+  obtain ⟨s, h1, h2⟩ := h f hf sd hsd v hv
+  exact ⟨s, by rw [hs v (mem_allRefSlots hsd hv)]; exact h1, h2⟩
+
+theorem VSet.set {p : Prog} {A : List Nat} {w : World} {v : Nat} {x : Val} (hv : v ∉ allRefSlots p)
+    (h : VSet p A w) : VSet p A { w with scratch := setSlot w.scratch v x } := by
+  refine h.congr (fun s hs => ?_)
+  simp only [getSlot_setSlot]
+  rw [if_neg]
+  intro he; subst he; exact hv hs
+
+theorem VSet.sub {p : Prog} {A B : List Nat} {w : World} (hAB : ∀ f, f ∈ A → f ∈ B) (h : VSet p B w) : VSet p A w :=
+  fun f hf => h f (hAB f hf)
 
 end PyTealV.Proofs.C02Gen
